@@ -45,6 +45,109 @@ type report struct {
 	Samples     []string       `json:"samples"`
 }
 
+func shuffleOpts(rng *rand.Rand, opts []publisher.SubscriberOption[int]) {
+	rng.Shuffle(len(opts), func(i, j int) { opts[i], opts[j] = opts[j], opts[i] })
+}
+
+// subRace: Subscribe while other goroutines publish.  `idle` subscribers that reject everything make every Publish
+// long (a cached / snapshotted subscriber list has a wide window), 4 background publishers publish all the time.
+// Each trial subscribes two subscribers back to back, waits 200us AFTER both Subscribe calls have returned and
+// then publishes one message only those two accept: it must reach both (generous bound: 10s), exactly once.
+func subRace(rep *report, trials, idle int, seed int64, prop string) {
+	pub := publisher.NewPublication[int]()
+	for i := 0; i < idle; i++ {
+		pub.Subscribe(0, publisher.WithFilter(func(int) bool { return false }))
+	}
+	var stop atomic.Bool
+	var bg sync.WaitGroup
+	for p := 0; p < 4; p++ {
+		bg.Add(1)
+		go func() {
+			defer bg.Done()
+			for k := 1; !stop.Load(); k++ {
+				pub.Publish(k)
+			}
+		}()
+	}
+	defer func() { stop.Store(true); bg.Wait(); pub.Close() }()
+	hi := func(m int) bool { return m >= 500000000 }
+	for trial := 0; trial < trials; trial++ {
+		var early atomic.Int64
+		mk := func() *publisher.Subscriber[int] {
+			return pub.Subscribe(2, publisher.OnTimeout(func(int) { early.Add(1) }), publisher.WithFilter(hi), publisher.WithTimeout[int](60*time.Second))
+		}
+		a := mk()
+		b := mk()
+		time.Sleep(200 * time.Microsecond)
+		m := 500000000 + trial
+		pub.Publish(m)
+		for i, s := range []*publisher.Subscriber[int]{a, b} {
+			select {
+			case v := <-s.Receive():
+				if v != m {
+					rep.Failures = append(rep.Failures, failure{"a subscriber received a value its filter rejects",
+						fmt.Sprintf("subscribe-while-publishing trial %d: subscriber %d received %d", trial, i, v), prop + "-stress:rejected", trial, seed})
+					return
+				}
+			case <-time.After(10 * time.Second):
+				rep.Failures = append(rep.Failures, failure{"a message published after Subscribe had returned never reached the subscriber",
+					fmt.Sprintf("subscribe-while-publishing trial %d (%d idle subscribers, 4 background publishers): subscriber %d of 2, subscribed 200us before Publish(%d) was called, had not received it after 10s (no OnFiltered/OnTimeout either: %d OnTimeout calls)",
+						trial, idle, i, m, early.Load()), prop + "-stress:lost-after-subscribe", trial, seed})
+				return
+			}
+		}
+		a.Close()
+		b.Close()
+		rep.Evaluations += 2
+	}
+	rep.Histogram[fmt.Sprintf("subscribe-while-publishing trials (%d idle subscribers)", idle)] += trials
+}
+
+// slowFilterRound: subscriber A's filter takes 60 ms; subscriber B (buffer 2, drained all the time) has a 40 ms
+// timeout.  B's own timeout starts when B's delivery starts, so every message must reach B and OnTimeout must
+// never fire - however long A's filter took, whichever of the two is visited first.
+func slowFilterRound(rng *rand.Rand, rep *report, seed int64, prop string) {
+	pub := publisher.NewPublication[int]()
+	var aRej, bTimeouts atomic.Int64
+	acceptA := rng.Intn(2) == 0
+	optsA := []publisher.SubscriberOption[int]{publisher.WithFilter(func(int) bool { time.Sleep(60 * time.Millisecond); return acceptA }),
+		publisher.OnFiltered(func(int) { aRej.Add(1) }), publisher.WithTimeout[int](60 * time.Second)}
+	optsB := []publisher.SubscriberOption[int]{publisher.WithTimeout[int](40 * time.Millisecond), publisher.OnTimeout(func(int) { bTimeouts.Add(1) })}
+	shuffleOpts(rng, optsA)
+	shuffleOpts(rng, optsB)
+	var a, b *publisher.Subscriber[int]
+	if rng.Intn(2) == 0 {
+		a, b = pub.Subscribe(64, optsA...), pub.Subscribe(2, optsB...)
+	} else {
+		b, a = pub.Subscribe(2, optsB...), pub.Subscribe(64, optsA...)
+	}
+	_ = a
+	const N = 16
+	got := map[int]int{}
+	done := make(chan struct{})
+	go func() {
+		defer close(done)
+		for v := range b.Receive() {
+			got[v]++
+		}
+	}()
+	for m := 1; m <= N; m++ {
+		pub.Publish(m)
+	}
+	time.Sleep(150 * time.Millisecond)
+	waitNoGoroutines(5 * time.Second)
+	pub.Close()
+	<-done
+	if bTimeouts.Load() != 0 || len(got) != N {
+		rep.Failures = append(rep.Failures, failure{"a delivery timed out before the subscriber's own timeout had run from the start of ITS delivery",
+			fmt.Sprintf("subscriber A's filter takes 60ms; subscriber B (buffer 2, drained continuously, timeout 40ms) received %d of %d messages, OnTimeout fired %d times: time spent on A was charged to B",
+				len(got), N, bTimeouts.Load()), prop + "-stress:early-timeout", 0, seed})
+		return
+	}
+	rep.Evaluations += N
+	rep.Histogram["slow-filter messages"] += N
+}
+
 func pkgGoroutines() int {
 	buf := make([]byte, 1<<20)
 	for {
@@ -108,6 +211,9 @@ func roundC06(rng *rand.Rand, rep *report, round int, seed int64, sz *sizes) {
 	got := make([][]int, S)
 	nFiltered := make([]atomic.Int64, S)
 	nTimedOut := make([]atomic.Int64, S)
+	orng := rand.New(rand.NewSource(seed ^ 0x5eed)) // order of the Subscribe options
+	var extra []int                                  // messages published by this goroutine, after some Subscribe calls had returned
+	joinedAt := make([]int, S)                       // len(extra) when subscriber i's Subscribe returned
 	var rwg sync.WaitGroup
 	stop := make(chan struct{})
 	startSub := func(i int) {
@@ -123,7 +229,9 @@ func roundC06(rng *rand.Rand, rep *report, round int, seed int64, sz *sizes) {
 		if c.onT {
 			opts = append(opts, publisher.OnTimeout(func(m int) { nTimedOut[i].Add(1) }))
 		}
+		shuffleOpts(orng, opts)
 		subs[i] = pub.Subscribe(c.cap, opts...)
+		joinedAt[i] = len(extra)
 		rwg.Add(1)
 		ch := subs[i].Receive()
 		go func() {
@@ -211,9 +319,21 @@ func roundC06(rng *rand.Rand, rep *report, round int, seed int64, sz *sizes) {
 		if cfgs[i].late {
 			time.Sleep(time.Duration(rng.Intn(300)) * time.Microsecond)
 			startSub(i)
+			// Subscribe has returned: whatever is published from now on must reach subscriber i
+			m := 800000000 + i
+			published.Store(m, true)
+			extra = append(extra, m)
+			pub.Publish(m)
 		}
 	}
 	pwg.Wait()
+	// epilogue: every Subscribe / Close has returned long ago
+	for k := 1; k <= 3; k++ {
+		m := 900000000 + k
+		published.Store(m, true)
+		extra = append(extra, m)
+		pub.Publish(m)
+	}
 	left := waitNoGoroutines(20 * time.Second)
 	close(stop)
 	rwg.Wait()
@@ -250,9 +370,25 @@ func roundC06(rng *rand.Rand, rep *report, round int, seed int64, sz *sizes) {
 				fmt.Sprintf("subscriber %d: %d OnTimeout calls", i, nTimedOut[i].Load()), "c06-stress:timeout", round, seed})
 			return
 		}
+		if !c.quit {
+			// published after this subscriber's Subscribe call had returned: must arrive
+			for _, m := range extra[joinedAt[i]:] {
+				if c.accepts(m) && seen[m] != 1 {
+					rep.Failures = append(rep.Failures, failure{"a message published after Subscribe had returned never reached the subscriber",
+						fmt.Sprintf("subscriber %d (cap %d, filter m%%%d==%d, joined while %d publishers were publishing: %v) never received %d (S=%d)", i, c.cap, c.mod, c.rem, P, c.late, m, S),
+						"c06-stress:lost-after-subscribe", round, seed})
+					return
+				}
+			}
+		}
 		if !c.late && !c.quit {
 			// subscribed during every Publish: exactly the accepted messages
 			want := 0
+			for _, m := range extra {
+				if c.accepts(m) {
+					want++
+				}
+			}
 			for p := 0; p < P; p++ {
 				for k := 0; k < N; k++ {
 					m := p*1000000 + k + 1
@@ -269,7 +405,7 @@ func roundC06(rng *rand.Rand, rep *report, round int, seed int64, sz *sizes) {
 			}
 			rep.Histogram["pairs-exact"] += want
 			if c.onF {
-				if rej := int64(P*N - want); nFiltered[i].Load() != rej {
+				if rej := int64(P*N + len(extra) - want); nFiltered[i].Load() != rej {
 					rep.Failures = append(rep.Failures, failure{"OnFiltered not invoked exactly once per rejected message",
 						fmt.Sprintf("subscriber %d: %d rejected messages, %d OnFiltered calls", i, rej, nFiltered[i].Load()), "c06-stress:onfiltered", round, seed})
 					return
@@ -351,6 +487,7 @@ func roundC15(rng *rand.Rand, rep *report, round int, seed int64) {
 				bump(&s.onT, m)
 			}),
 			publisher.OnFiltered(func(m int) { bump(&s.onF, m) }))
+		shuffleOpts(rng, opts)
 		s.sub = pub.Subscribe(s.cfg.cap, opts...)
 		subs[i] = s
 		if s.mode != 0 {
@@ -612,6 +749,7 @@ func bigBurstC15(rng *rand.Rand, rep *report, N int, seed int64) {
 		if filter != 0 {
 			opts = append(opts, publisher.WithFilter(func(m int) bool { return m%filter == 0 }))
 		}
+		shuffleOpts(rng, opts)
 		b.sub = pub.Subscribe(c, opts...)
 		return b
 	}
@@ -851,6 +989,7 @@ func c10child(seed int64) {
 			res.Hist["subscribers-closing-from-OnTimeout"]++
 		}
 		s.tmo = tm
+		shuffleOpts(rng, opts)
 		s.sub = pub.Subscribe(s.cfg.cap, opts...)
 		subs[i] = s
 		slow := rng.Intn(3) == 0
@@ -1117,10 +1256,24 @@ func main() {
 	self, _ := os.Executable()
 	if *roundSeed != 0 {
 		rng := rand.New(rand.NewSource(*roundSeed))
+		if *mode == "c06" || *mode == "c15" {
+			subRace(rep, 60, 3000, *roundSeed, *mode)
+			if len(rep.Failures) == 0 {
+				subRace(rep, 240, 0, *roundSeed, *mode)
+			}
+			if len(rep.Failures) == 0 {
+				slowFilterRound(rand.New(rand.NewSource(*roundSeed)), rep, *roundSeed, *mode)
+			}
+		}
 		switch *mode {
 		case "c06":
-			roundC06(rng, rep, 0, *roundSeed, nil)
+			if len(rep.Failures) == 0 {
+				roundC06(rng, rep, 0, *roundSeed, nil)
+			}
 		case "c15":
+			if len(rep.Failures) > 0 {
+				break
+			}
 			burstC15(rand.New(rand.NewSource(*roundSeed)), rep, 150, *roundSeed)
 			if len(rep.Failures) == 0 {
 				bigBurstC15(rand.New(rand.NewSource(*roundSeed)), rep, 4000, *roundSeed)
@@ -1137,7 +1290,22 @@ func main() {
 		rep.Rounds = 1
 		R = 0
 	}
-	if *mode == "c15" && *roundSeed == 0 {
+	if (*mode == "c06" || *mode == "c15") && *roundSeed == 0 {
+		// Subscribe overlapping Publish (stale subscriber lists), another subscriber's slow filter
+		prop := *mode
+		tr := 60
+		if *tier == "thorough" {
+			tr = 600
+		}
+		subRace(rep, tr, 3000, *seed, prop)
+		if len(rep.Failures) == 0 {
+			subRace(rep, 4*tr, 0, *seed, prop)
+		}
+		if len(rep.Failures) == 0 {
+			slowFilterRound(rand.New(rand.NewSource(*seed*31+7)), rep, *seed*31+7, prop)
+		}
+	}
+	if *mode == "c15" && *roundSeed == 0 && len(rep.Failures) == 0 {
 		trials := 150
 		if *tier == "thorough" {
 			trials = 3000
